@@ -218,6 +218,11 @@ mod utils;
 #[cfg(d_engine_verif)]
 pub use membership::RaftMembership;
 
+/// Verification hook (only with `--cfg d_engine_verif`): lets an external harness construct and drive the
+/// real `GrpcTransport`. Adds no behaviour.
+#[cfg(d_engine_verif)]
+pub use network::grpc::grpc_transport::GrpcTransport;
+
 // ==================== Test Utilities ====================
 
 /// Standardized test suite for custom [`StateMachine`] implementations.
